@@ -108,6 +108,7 @@ var alsoViolates = map[string][][2]string{
 	"C13/snapshot-later-not-restored": {{"C01", "lost-by-seek"}},
 	"C13/restore-times":               {{"C14", "retention-not-restarted"}},
 	"C13/seek-revived-expired":        {{"C14", "revived-after-retention"}},   // deliverable for exactly its retention
+	"C14/pull-did-not-restart-expiry": {{"C15", "live-subscription-expired"}}, // the expiry job then removes a subscription that is in use
 	"C14/expired-early":               {{"C15", "live-subscription-expired"}}, // the expiry job removed a subscription that is in use
 	"C14/ttl-update-clock":            {{"C15", "live-subscription-expired"}}, // the expiry job then removes a live subscription
 	"C13/row-lost":                    {{"C01", "lost"}},
@@ -550,6 +551,14 @@ func (m *Monitors) Observe(idx int, r *Result) {
 		}
 		m.lastPull[sub.ID] = r.TAfter
 		m.Counts["pulls"]++
+		// every pull, also one that waited and came back empty, restarts the subscription's expiry clock
+		// when it ends: afterwards the subscription expires one TTL from then
+		if a := r.SubsAfter[sub.ID]; a != nil && a.DeletedAt == nil {
+			if want := r.TAfter + int64(a.TTL); ns(a.ExpiresAt) < want-int64(Ms) || ns(a.ExpiresAt) > want+int64(Ms) {
+				m.fire("C14", "pull-did-not-restart-expiry", "pull on %s ended at t=%d (began at %d, %d messages); the subscription (TTL %d ns) now expires at %d, expected %d", sub.Name, r.TAfter, now, len(r.Delivered), int64(a.TTL), ns(a.ExpiresAt), want)
+			}
+			m.Counts["pull_expiry_checks"]++
+		}
 		if len(r.Delivered) > 0 {
 			m.Counts["pulls_nonempty"]++
 		}
